@@ -226,6 +226,40 @@ func c33Replay(pc *PipeConns, ops []c33Op, rng *rand.Rand, progress *atomic.Int3
 				return c33Result{i, "pipe:read:bytes", fmt.Sprintf("Read on end %d: byte %d of the call is %#x, the stream written by the other end has %#x at offset %d",
 					op.E, j, rbuf[j], c33Byte(3-op.E, op.From+j), op.From+j)}
 			}
+		case "ra": // read everything through the named entry point, until EOF or the (fired) read deadline
+			if op.Dl {
+				c.SetReadDeadline(deadline())
+				rdl[op.E] = true
+			} else if rdl[op.E] {
+				c.SetReadDeadline(time.Time{})
+				rdl[op.E] = false
+			}
+			var data []byte
+			var n64 int64
+			var err error
+			switch op.Via {
+			case "io.Copy":
+				var dst bytes.Buffer
+				n64, err = io.Copy(&dst, c) // the conn ITSELF is the source: its io.WriterTo, if any, is used
+				data = dst.Bytes()
+			case "bufio.WriteTo":
+				var dst bytes.Buffer
+				n64, err = bufio.NewReader(c).WriteTo(&dst)
+				data = dst.Bytes()
+			case "io.ReadAll":
+				data, err = io.ReadAll(c)
+				n64 = int64(len(data))
+			default:
+				return c33Result{i, "infra", "unknown read entry point " + op.Via}
+			}
+			got[op.E] += len(data)
+			if int(n64) != op.N || len(data) != op.N || !c33In(c33ErrClass(err), op.Errs) {
+				return c33Result{i, fmt.Sprintf("pipe:readall:%s:want(%d,%v):got(%d,%s)", op.Via, op.N, op.Errs, len(data), c33ErrClass(err)),
+					fmt.Sprintf("%s on end %d delivered %d bytes (reported %d), error %v; specification: %d bytes, %v", op.Via, op.E, len(data), n64, err, op.N, op.Errs)}
+			}
+			if len(data) > 0 && !bytes.Equal(data, c33Pattern(3-op.E, op.From, len(data))) {
+				return c33Result{i, "pipe:readall:bytes", fmt.Sprintf("%s on end %d: the %d bytes delivered differ from what the other end wrote at stream offset %d..", op.Via, op.E, len(data), op.From)}
+			}
 		case "c":
 			var err error
 			if rng.Intn(3) == 0 {
